@@ -60,7 +60,15 @@ func about(p rtcp.Packet, ssrc uint32) string {
 }
 
 func countAbout(calls []kit.SentRTCP, ssrc uint32) (int, string) {
+	n, kind, _ := countAboutAt(calls, ssrc)
+
+	return n, kind
+}
+
+// countAboutAt also returns when the last of the matching writes began.
+func countAboutAt(calls []kit.SentRTCP, ssrc uint32) (int, string, time.Time) {
 	n, kind := 0, ""
+	var last time.Time
 	for _, c := range calls {
 		hit := ""
 		for _, p := range c.Pkts {
@@ -71,10 +79,19 @@ func countAbout(calls []kit.SentRTCP, ssrc uint32) (int, string) {
 		if hit != "" {
 			n++
 			kind = hit
+			last = c.At
 		}
 	}
 
-	return n, kind
+	return n, kind, last
+}
+
+// lingering decides whether what was written about a stream after its Unbind returned goes beyond "one already in flight". Two writes can
+// both have been decided before the Unbind (a queued immediate request and a periodic batch whose stream list was taken a moment earlier; seen
+// once in 17000 cases): they begin within moments. Anything decided afterwards comes with a later tick, so more than one write counts only if
+// the last of them began more than half an interval after the Unbind had returned.
+func lingering(n int, last, unboundAt time.Time) bool {
+	return n > 1 && last.Sub(unboundAt) > interval/2
 }
 
 type local struct {
@@ -99,7 +116,10 @@ type remote struct {
 }
 
 // members with more lifecycle-relevant state are drawn more often
-var members = append(append([]string{}, kit.AllNames...), "jitterbuffer", "jitterbuffer", "jitterbuffer", "intervalpli", "rfc8888", "cc-leaky-bucket", "pacing", "twcc-sender", "nack-generator", "report-receiver")
+// every member once, and the ones with report loops, per-stream state or goroutines of their own several times more
+var members = append(append([]string{}, kit.AllNames...), "jitterbuffer", "jitterbuffer", "jitterbuffer", "intervalpli", "intervalpli", "rfc8888", "rfc8888",
+	"cc-leaky-bucket", "cc-user-pacer", "pacing", "twcc-sender", "twcc-sender", "twcc-sender", "nack-generator", "report-receiver", "report-receiver", "report-receiver",
+	"report-sender", "nack-responder", "nack-responder", "nack-responder-small", "stats")
 
 func TestLifecycle(t *testing.T) {
 	rec := kit.NewRecorder("C11", "lifecycle-state-machine",
@@ -282,11 +302,12 @@ func TestLifecycle(t *testing.T) {
 					guard("RTCP Read", func() { _, _, _ = rtcpIn.Read(make([]byte, 1500), interceptor.Attributes{}) })
 				}
 				guard("UnbindLocalStream", func() { ic.UnbindLocalStream(l.info) })
+				unboundAt := time.Now()
 				l.bound = false
 				from := rtcpSink.Len()
 				time.Sleep(5 * interval)
 				unbindThenTicks = unbindThenTicks || writerBound
-				if n, kind := countAbout(rtcpSink.Calls()[from:], l.info.SSRC); n > 1 {
+				if n, kind, last := countAboutAt(rtcpSink.Calls()[from:], l.info.SSRC); lingering(n, last, unboundAt) {
 					t.Fatalf("%s: %d messages (%s) about ssrc %#x were written during the 5 intervals after UnbindLocalStream returned (ops %v)", name, n, kind, l.info.SSRC, ops)
 				}
 			},
@@ -301,6 +322,7 @@ func TestLifecycle(t *testing.T) {
 				trace.U(7, uint64(r.info.SSRC))
 				logOp("UnbindRemoteStream %#x", r.info.SSRC)
 				guard("UnbindRemoteStream", func() { ic.UnbindRemoteStream(r.info) })
+				unboundAt := time.Now()
 				r.bound = false
 				from := rtcpSink.Len()
 				if rtcpIn != nil && rapid.Bool().Draw(t, "lateSR") {
@@ -311,7 +333,7 @@ func TestLifecycle(t *testing.T) {
 				}
 				time.Sleep(5 * interval)
 				unbindThenTicks = unbindThenTicks || writerBound
-				if n, kind := countAbout(rtcpSink.Calls()[from:], r.info.SSRC); n > 1 {
+				if n, kind, last := countAboutAt(rtcpSink.Calls()[from:], r.info.SSRC); lingering(n, last, unboundAt) {
 					if kind == "RFC 8888 report block" && kit.Known("C11-rfc8888-ignores-unbind") {
 						rec.KnownHit("C11-rfc8888-ignores-unbind")
 
@@ -388,7 +410,11 @@ func TestLifecycle(t *testing.T) {
 							switch v := p.(type) {
 							case *rtcp.ReceiverReport:
 								for _, rr := range v.Reports {
-									// (a report generated while the packets were still being read may name any of the new numbers)
+									// (a report generated while the packets were still being read may name any of the new numbers; one generated
+									// before the first of them was processed - and written late by a descheduled loop - is the empty report)
+									if rr.SSRC == r.info.SSRC && rr.LastSequenceNumber == 0 && rr.TotalLost == 0 && rr.Jitter == 0 {
+										continue
+									}
 									if rr.SSRC == r.info.SSRC && (rr.TotalLost != 0 || uint16(rr.LastSequenceNumber)-r.first > r.seq-r.first || rr.LastSequenceNumber>>16 != 0) { //nolint:gosec
 										t.Fatalf("%s: ssrc %#x was bound again and received %d..%d in order, but its receiver report says highest %d (cycles %d), cumulative lost %d (ops %v)",
 											name, r.info.SSRC, r.first, r.seq, uint16(rr.LastSequenceNumber), rr.LastSequenceNumber>>16, rr.TotalLost, ops) //nolint:gosec
@@ -430,6 +456,8 @@ func TestLifecycle(t *testing.T) {
 					return nil
 				})
 				time.Sleep(3 * interval)
+				// media keeps flowing after the writer has recovered: a report loop that gave up on the error shows now
+				actions["traffic"](t)
 			},
 			"close": func(t *rapid.T) {
 				if closed {
@@ -616,6 +644,8 @@ func TestLifecycle(t *testing.T) {
 			if remotes[idx].bound {
 				actions["unbindRemote"](t)
 			}
+			rtcpSink.SetFailIf(nil) // the writer works again; what it refused is history before the next action looks at reports
+			time.Sleep(2 * interval)
 		}
 		actions["closeAgain"] = func(t *rapid.T) {
 			if !closed {
